@@ -148,6 +148,10 @@ def curated():
     add({"Root": [rule("^a$"), rule("\\Aab\\z"), rule("^b\\z"), rule("(?s).")]})
     # a state without any rule (legal: Push only needs the state to exist): entering it with input left is an error, not a panic
     add({"Root": [rule("a"), rule("b", act="push", state="S1")], "S1": []})
+    # a state whose name is the empty string, entered by Push and used by Include
+    add({"Root": [rule("a", act="push", state=""), inc(""), rule("[ab]")], "": [rule("b", act="pop"), rule("ab")]})
+    # a named rule with an empty pattern and no action: reaching it is an error ("did not match any input"), it is not a Return
+    add({"Root": [rule("a", act="push", state="S1"), rule("b")], "S1": [rule("b"), named("Oops", "")]})
     # a rule named like the end-of-input symbol is an ordinary rule with a type of its own
     add({"Root": [named("EOF", "b"), rule("a", act="push", state="S1"), rule("(?s).")], "S1": [named("EOF", "b", "pop"), rule("a")]})
     return K
